@@ -17,6 +17,8 @@ CLAIMED = {
    note=NOTE + " Static registration only; import side effects are modelled as a fixed set of importable modules.", design="5/C15"),
  'C16': dict(category='translation_validation', text="Executable Gallina model of the streaming statement consumer (parse_config, includes through readers/locations, try_with_location chain, provenance) compared with the implementation on generated configs with one injected fault (14 kinds, any include depth / block member); independent oracle: a second fresh gin given only the statements preceding the fault must end in the same store and provenance; error class and (file, line) chain checked against the generator's own line bookkeeping. One known finding (F11, block members before a syntactic fault) is recorded.",
    note=NOTE + " Tokenizer, ast.literal_eval per atom and the file system are not modelled. No Coq theorem about the consumer fold is proved yet.", design="5/C16"),
+ 'C04': dict(text="Coq theorems: a parameter the caller supplies (positionally or by keyword) has no entry among the bindings that are deep-copied, i.e. its reference is never evaluated (refutation theorem for the code before the repair); evaluation / calls of any nesting never change the store, registry, lock or constants and restore the scope stack (frame theorems by mutual fuel induction). Model tied to /repo by generated programs with nested scoped/unscoped, evaluated/unevaluated references and MUTATING probes; independent predicate: the exact sequence of (configurable, scope) body executions predicted from the store snapshot, delivery shape, freshness, and store equality across every call.",
+   note=NOTE + " copy.deepcopy on plain containers is CPython; container isolation is checked by the mutating probes, not proved (the model's values are immutable).", design="5/C04"),
  'C08': dict(text="Coq proof (for every history of set/pop/clear/copy and every query, over unbounded name sets) that the suffix-tree model refines a finite map, that matching = exact-match-else-all-suffix-matches, and that the reported minimal selector resolves back and no shorter suffix does; model tied to /repo by a differential run of generated histories plus an independent brute-force statement of the property evaluated on the implementation.",
    note=NOTE + " ASCII selectors only.", design="5/C08"),
  'C09': dict(text="Coq theorem C09_restored: every op of the Gin-machine language (config_scope blocks of any depth, raising bodies, scoped references, nested calls) leaves the scope stack exactly as found on both exits; composition and invalid-scope theorems. Thread half: per-thread-stack model compared with 2-4 real threads stepped by a central scheduler on generated (thorough: exhaustively enumerated) schedules, with an independent 'what the thread sees alone' predicate.",
